@@ -199,6 +199,7 @@ struct SeqRun
     std::map<int, int64_t>        rejected_deadline;
     std::set<int>                 recycled; // keys inserted after some erase/eviction happened (slot reuse)
     bool                          any_removed{false};
+    bool                          any_erased{false}; // an erase call succeeded in this run
     uint64_t                      stamp{0};
     int64_t                       z_prev{0};
     int64_t                       newly_expired{0};
@@ -296,6 +297,25 @@ struct SeqRun
         return o + "}";
     }
     bool is_ttl() const { return tr.ttl != TtlMode::none; }
+    // the property that states this container's eviction order (nullptr: none / random)
+    const char* policy_prop() const
+    {
+        switch (tr.policy)
+        {
+            case Policy::lru:
+                return "C10";
+            case Policy::mru:
+                return "C13";
+            case Policy::fifo:
+                return "C12";
+            case Policy::lfu:
+                return "C11";
+            case Policy::lfuda:
+                return "C14";
+            default:
+                return nullptr;
+        }
+    }
 
     std::unique_ptr<Box> fresh(const Config& c)
     {
@@ -551,9 +571,19 @@ struct SeqRun
             eval("C18");
             if (g.hit != f.hit || g.val != f.val || g.count != f.count)
             {
-                if (fail({"C18"}, "range.state_diverged",
+                // The single-driven instance has been verified against the model step by step, so the
+                // range-driven one is what deviates: a different use count breaks C11's counting rule for
+                // range lookups, a different resident set breaks the container's eviction order rule.
+                std::vector<const char*> pr = {"C18"};
+                if (g.hit == f.hit && g.val == f.val)
+                    pr.push_back("C11");
+                else if (const char* pol = policy_prop())
+                    pr.push_back(pol);
+                if (fail(pr, "range.state_diverged",
                          std::string(phase) + ": probe of key " + std::to_string(k) +
-                             " differs between range-driven and single-driven instance", true))
+                             " differs between range-driven and single-driven instance (hit " + std::to_string(g.hit) + "/" +
+                             std::to_string(f.hit) + ", value " + std::to_string(g.val) + "/" + std::to_string(f.val) + ", count " +
+                             std::to_string(g.count) + "/" + std::to_string(f.count) + ")", true))
                     return;
                 R.reset(); // diverged: stop comparing this twin
             }
@@ -731,6 +761,11 @@ struct SeqRun
                         if (kv.second.ins < v.ins)
                             ++rank;
                     st.bump("rr.rank." + std::to_string(L0.size()) + "." + std::to_string(rank));
+                    // While nothing has been erased the slots are filled in insertion order and an evicted
+                    // slot is refilled at once, so rank and slot position stay in a fixed relation:
+                    // a position the chooser can never produce shows up as a rank that never occurs.
+                    if (!any_erased)
+                        st.bump("rr.purerank." + std::to_string(L0.size()) + "." + std::to_string(rank));
                 }
                 break;
             default:
@@ -1103,6 +1138,7 @@ struct SeqRun
             if (res)
             {
                 remove_live(k, Gone::erased);
+                any_erased = true;
                 nt("C03");
             }
             else
@@ -1490,7 +1526,7 @@ struct SeqRun
                 {
                     // in ut_map / ut_set size() must equal the number of live keys after every call (the probe
                     // just made calls): an early expiry shows there as an undercount as well
-                    std::vector<const char*> pr = {"C05"};
+                    std::vector<const char*> pr = {"C05", "C03"}; // gone before its expiry, and not by erase / eviction
                     ++st.calls;
                     if ((int64_t)S->size() < (int64_t)live.size())
                         pr.push_back("C02");
